@@ -2514,7 +2514,8 @@ class Trimesh(Geometry3D):
                 self._cache.delete("vertex_normals")
 
         # if transformation flips winding of triangles
-        if has_rotation and transformations.flips_winding(matrix):
+        flipped = has_rotation and transformations.flips_winding(matrix)
+        if flipped:
             log.debug("transform flips winding")
             # fliplr will make array non C contiguous
             # which will cause hashes to be more
@@ -2526,25 +2527,38 @@ class Trimesh(Geometry3D):
 
         # preserve normals and topology in cache
         # while dumping everything else
-        self._cache.clear(
-            exclude={
-                "face_normals",  # transformed by us
-                "vertex_normals",  # also transformed by us
-                "face_adjacency",  # topological
-                "face_adjacency_edges",
-                "face_adjacency_unshared",
-                "edges",
-                "edges_face",
-                "edges_sorted",
-                "edges_unique",
-                "edges_unique_idx",
-                "edges_unique_inverse",
-                "edges_sparse",
-                "body_count",
-                "faces_unique_edges",
-                "euler_number",
-            }
-        )
+        exclude = {
+            "face_normals",  # transformed by us
+            "vertex_normals",  # also transformed by us
+            "face_adjacency",  # topological
+            "face_adjacency_edges",
+            "face_adjacency_unshared",
+            "edges",
+            "edges_face",
+            "edges_sorted",
+            "edges_unique",
+            "edges_unique_idx",
+            "edges_unique_inverse",
+            "edges_sparse",
+            "body_count",
+            "faces_unique_edges",
+            "euler_number",
+        }
+        if flipped:
+            # reversing every face reverses and reorders its edges
+            # so anything that follows the order of `edges` is stale
+            exclude.difference_update(
+                {
+                    "edges",
+                    "edges_sorted",
+                    "edges_unique",
+                    "edges_unique_idx",
+                    "edges_unique_inverse",
+                    "edges_sparse",
+                    "faces_unique_edges",
+                }
+            )
+        self._cache.clear(exclude=exclude)
         # set the cache ID with the current hash value
         self._cache.id_set()
         return self
